@@ -11,6 +11,7 @@ RULE = ('one record per decrypt attempt (one-shot and incremental with 2 partiti
         'boundary, swapped lengths, foreign tag, zero tag, and the unmodified tuple; distinct = (interface, mutation kind, position)')
 ASSUMPTIONS = ['AEAD model of C06']
 FLOORS = {'evaluations': 4000, 'distinct': 600, 'coverage': {'accept': 12, 'reject': 3000}}
+THOROUGH_ROUNDS = 100   # thorough tier: generator passes with derived seeds (runner.gen_rounds)
 
 
 def dec_lines(rng, rounds, key, nonce, aad, ct, tag, kind):
